@@ -12,6 +12,22 @@ CHECKS = {
             "explicit-state exploration of the real Window<u32> x VecDeque reference: every capacity 0..=254, every constructor, 2N+2 pushes, every observer and iterator split in every state; total enumeration of adversarial serialized forms",
             "Every (capacity, rotation phase / fill level, observer) triple of the default build is visited and compared with a labelled FIFO model, including rebuilds through from_parts and serde; the space is finite and closed, so for the label alphabet the result is exhaustive. Parametricity lifts labels to all element types.",
             "Trusted: the VecDeque reference (a few lines), serde_json for the round trip, rustc's parametricity for Window<T: Clone>. Quick tier checks all iterator splits only for N <= 40 and boundary/phase-relative splits above; thorough checks every split for every N."),
+    "C02": ("DESIGN.md §6 C02",
+            "exhaustive depth-bounded and deviation-bounded exploration of the real methods x from-scratch window definitions: every input sequence up to depth 8-10 over exact and rounding-active alphabets for lengths 1..6, every length 1..=254 with <=1 (quick) / <=2 (thorough) deviations from a flat stream, every Conv weight vector of length <=4 and unit/ones/ramp vectors of every length; containment in a fixed rounding radius",
+            "Each of the 19 finite-window methods is compared, on every transition and for next and peek, with its documented formula evaluated from scratch on the last n inputs (construction value as prehistory). The comparison is two-sided with the radius of DESIGN §4.2, so any formula, weight, window-offset or initialisation error beyond rounding is seen on every sequence within the bounds.",
+            "Trusted: the reference definitions in mc/refmodel (my reading of the docs), the radius rule. Values outside the alphabets and streams with more than 2 deviations beyond the exhaustive depth are not executed."),
+    "C03": ("DESIGN.md §6 C03",
+            "exhaustive depth-bounded (d<=7 quick / 9 thorough, lengths 1,2,3,4,5,7) and deviation-bounded (every length 1..=254, 1..=127 for WSMA; all 64 516 TSI pairs thorough) exploration of the real recursive methods x their documented recurrences folded over the whole stream",
+            "EMA/DMA/TMA/DEMA/TEMA/RMA/WSMA/TSI/Vidya/TR/HeikinAshi/cumulative Integral and ADI are compared at every step with the recurrence written without mul_add; the radius of a recursive filter does not grow with the stream. An all-zero change window is an exact predicate (decides Vidya's branch exactly).",
+            "Trusted: reference recurrences in mc/refmodel; Vidya on a 0/0 momentum follows the implementation's stated branch (returns its input)."),
+    "C04": ("DESIGN.md §6 C04",
+            "closure BFS (state space closes: every stream length, every weak order pattern incl. both zeros) of the real selection methods x sort/max/min/arg reference for lengths 1..5 (7 thorough); macro-step exploration of <=2/3 constant/ramp segments for every length 1..=254",
+            "The algorithms only compare and copy, so a closed exploration over an alphabet of n+1 ordered values plus both zeros covers every behaviour class of a length-n window for streams of any length; outputs are compared exactly (up to the sign of zero), SMM's exported window must hold the last n inputs.",
+            "Trusted: the order-pattern lifting argument, the sort-based reference. Lengths above 7 are covered by segment streams only."),
+    "C14": ("DESIGN.md §6 C14",
+            "closure BFS of Cross/CrossAbove/CrossUnder (+ swapped series, binary()) over all pairs of 6 values incl. both zeros and the smallest subnormal; closure BFS of the three reversal detectors for (left,right) in {1,2}^2 (+{1,2,3} thorough) over a 3-symbol alphabet, running through the whole range of the position counter; deviation-bounded streams of 600 steps for boundary (quick) / ~12 000 (thorough) (left,right) pairs",
+            "The crossing detectors' state is the last difference, the reversal detectors' state a bounded window plus counters, so the product space closes and the verdict holds for streams of every length over the alphabet, including far beyond PeriodType::MAX.",
+            "Trusted: the definitional oracles; reversal definition stated for the prescribed use (first input = construction value)."),
     "C16": ("DESIGN.md §6 C16",
             "total enumeration: all 513 actions, all 263 169 pairs, all 1.35e8 triples, all i8, all 2^32 f32 bit patterns (thorough; 2^20 + break-point neighbourhoods quick), dense f64 neighbourhoods, against an integer signed-strength model",
             "The domain is finite, so the algebraic laws (conversion totality/sign/monotonicity/saturation, ratio range and round trip, negation involution, saturated subtraction, equality an equivalence, ordering vs equality) are decided on every element, pair and triple; float conversion is decided on every f32 in the thorough tier.",
